@@ -85,13 +85,14 @@ class StateVector(BasisManaged):
 
         """
 
-        return numpy.dot(self.data, vec.data)
+        # the scalar product is antilinear in its first argument
+        return numpy.vdot(self.data, vec.data)
 
     def norm(self):
         """Returns the norm of the StateVector
 
         """
-        return numpy.sqrt(numpy.dot(self.data, self.data))
+        return numpy.sqrt(numpy.real(numpy.vdot(self.data, self.data)))
 
 
     def transform(self, SS, inv=None):
